@@ -400,6 +400,7 @@ pub fn property() -> Property {
         rule: "(a) round trip: version-5 models from the C06 generator restricted to the 11 (usage, type) pairs the writer implements, canonical encodings only (exponent-31 halves and NaN floats excluded, padded w = 1.0 / 0.0, bitangent w in {0, 255}, zero gap bytes), parse -> write_to_buffer -> parse: written header = original header, model_data equal (PartialEq), every part's vertices / indices / sub-meshes / raw streams / names equal the generated geometry. (b) codec sweeps: all 63 488 non-exponent-31 half patterns in each Half4 role and all 256 values of every normalised-byte component re-encode to the stored bytes (raw vertex streams compared). (c) edit histories of 1..6 steps: replace_vertices for every mesh of a LOD with new vertex counts 0..300 (dedicated cases at 40 000 and 65 535), new index lists 0..600 and contiguous sub-mesh splits recomputed across the LOD; remove_shape_meshes; add_shape_mesh with empty value lists in order after a removal; then the written file is decoded by an independent reader: stack/runtime sizes, LOD records = file header, vertex_buffer_size = sum count x strides, index_buffer_size multiple of 16 and >= bytes used, sections in bounds and pairwise disjoint (also from header+stack+runtime), and re-parsing returns exactly the supplied geometry. Non-trivial: (a) >= 2 meshes; (c) a history changing a vertex count and an index count of different meshes; distinct by hash.",
         assumptions: &["trailing padding of the last index section need not be materialised in the file", "add_shape_mesh only with empty value lists (README: custom shape keys not fully supported)", "a remove_shape_meshes is inserted before the first replace_vertices of a model that has shapes (shape values reference the old geometry)"],
         pre: None,
+        post: None,
         parts: vec![
             Box::new(Part { name: "codec-sweep", driver: Driver::Enum(sweep_cases), prop: prop_sweep, exhaustive: true }),
             Box::new(Part { name: "roundtrip", driver: Driver::Gen(roundtrip_strategy, 800, 10_000), prop: prop_roundtrip, exhaustive: false }),
